@@ -28,6 +28,8 @@ CHECKS = {
          "records: all sequences up to depth 3 / 5 over add/set/delete on a name, its unregistered sub-name and a sub-sub-name, four types, the 16th/17th value, duplicates, SOA, registration conflicts, expiry and take-over, one block per mutation so SOA serials are distinguishable; CNAME: all sequences up to depth 5 / 16 over edges among five names forming chains of 0..4 links, a 2-cycle, a self-loop, a target kept under another name; after every step getRecords, getAllRecords (order, ids), resolve with and without trailing dot for every name and type", "4.12"),
  "C14": ("chainmc", "explicit-state BFS over roster histories (add batches crossing the 127/255/256 counter boundaries, commits) plus an exhaustive grid of signature matrices from a symbol menu, against an independent ECDSA oracle",
          "roster: all add/commit sequences up to depth 4 / 6 with batches of 1, 2, 127, 128, 129 keys over three vectors, strangers, malformed keys and ids; nodes(), replicasNumbers() and the raw pending roster compared in order after every step. signatures: every matrix with <= REP+1 slots per vector over {distinct members, byte-identical repeat, malleated twin of the same member, non-member, other message, junk}, REP 1..4 x 1..2, missing vectors; accepted => REP distinct members verified (Go crypto), submitObjectPut halts iff verification accepts, honest matrix accepted", "4.14"),
+ "C18": ("chainmc", "exhaustive enumeration of candidate strings (all strings up to length 5/6 over a 10-symbol alphabet, structured IPv4/IPv6/name/TXT grids) through every validating NNS entry point, against independent Go validators (regexp, netip)",
+         "quick 2.5e5 / thorough 1.25e6 candidates, each through addRecord and setRecord (and isAvailable/register/registerTLD for names) on the real bytecode from one base state; accepted <=> the independent reference accepts; a rejection must leave an empty storage diff", "4.18"),
 }
 
 NOT_YET = "check not built yet in this revision (work in progress; see DESIGN.md section 10)"
